@@ -1,4 +1,5 @@
 import Nstd.Codec.LemmasUtf8
+import Nstd.Codec.LemmasValid
 import Nstd.Codec.LemmasStr
 import Nstd.Codec.LemmasInt
 /-!
@@ -30,6 +31,29 @@ theorem utf8_roundtrip (cp : Nat) (h : cp < 0x110000) :
     fromString (toString cp) (toString cp).length = .ok cp := by
   rw [utf8_agrees cp h]
   exact decode_spec cp h
+
+/-- more generally `fromString` decodes the first code point of any longer text, whatever follows and
+    whatever length (at least the sequence) the caller passes -/
+theorem utf8_decodes_first (cp : Nat) (h : cp < 0x110000) (tl : List Nat) (len : Nat)
+    (hl : (toString cp).length ≤ len) : fromString (toString cp ++ tl) len = .ok cp := by
+  rw [utf8_agrees cp h] at hl ⊢
+  exact decode_spec_prefix cp h tl len hl
+
+/-- `Unicode::length` of the first byte the encoder emits is the number of bytes it emits -/
+theorem length_of_encoded (cp : Nat) (h : cp < 0x110000) :
+    ∃ b tl, toString cp = b :: tl ∧ utf8Length b = (toString cp).length := by
+  rw [utf8_agrees cp h]
+  exact utf8_nonempty_len cp h
+
+/-- `append(data, size, str)` of code points that are all <= U+10FFFF returns true, appends the
+    concatenated RFC 3629 encodings, and `Unicode::isValid` accepts the result (any number of code points) -/
+theorem isValid_encoded (cps : List Nat) (h : ∀ c ∈ cps, c < 0x110000) :
+    appendAll cps = (true, (cps.map Spec.utf8).flatten) ∧
+      isValid (appendAll cps).2 (appendAll cps).2.length = .ok true := by
+  refine ⟨appendAll_valid cps h, ?_⟩
+  rw [appendAll_valid cps h]
+  have := valid_all cps h []
+  simpa [isValid] using this
 
 /-- `Unicode::length(char)` touches no memory; its value is 0..4 for EVERY byte value, hence the
     read `utf8Offsets[reqLen]` of `fromString` is inside the 5-entry table. -/
